@@ -294,9 +294,23 @@ def _solve_inproc(text, timeout):
         s.from_string(text)
         r = s.check()
         ans = str(r)
+        if ans == "sat":
+            _LAST_MODEL.clear()
+            try:
+                m = s.model()
+                for d in m.decls():
+                    if d.arity() == 0 and len(_LAST_MODEL) < 400:
+                        v = m[d]
+                        if v is not None and not _z.is_array(v) and not _z.is_quantifier(v):
+                            _LAST_MODEL[d.name()] = v.sexpr()[:300]
+            except Exception:        # noqa: BLE001  (a model is a convenience, never a verdict)
+                pass
     except Exception as e:           # parse errors etc. -> undecided, never a verdict
         ans = "unknown:" + str(e)[:200]
     return ans, time.time() - t0
+
+
+_LAST_MODEL = {}
 
 
 def solve_text(args):
@@ -306,6 +320,8 @@ def solve_text(args):
     ans, dt = _solve_inproc(text, timeout)
     log.append(("z3-5.1", ans, round(dt, 3)))
     total = dt
+    if ans == "sat" and _LAST_MODEL:
+        log.append(("model", dict(_LAST_MODEL), 0))
     if ans in ("sat", "unsat"):
         return ans, "z3-5.1", total, log
     if use_fallback:
@@ -374,6 +390,8 @@ def discharge(obligations, covers, timeout=10, jobs=None, crosscheck=False):
     res = pl.map(solve_text, [(t, timeout, True) for t in texts], chunksize=1)
     cres = pl.map(solve_text, [(t, min(timeout, 3), False) for t in ctexts], chunksize=1)
     for ob, t, (ans, solver, dt, log) in zip(obligations, texts, res):
+        ob.model = next((l[1] for l in log if l[0] == "model"), None)
+        log = [l for l in log if l[0] != "model"]
         ob.status, ob.solver, ob.time, ob.detail = ans, solver, dt, log
         if ans != "unsat":
             ob.smt2 = t
